@@ -67,6 +67,11 @@ func checkSeq(ctx *pbt.Ctx, c SeqCase) error {
 	tx := ref.ToLib(m)
 	before := append([]byte{}, tx.Bytes()...)
 	eng := interpreter.NewEngine()
+	if len(c.Order)%2 == 0 { // the engine has been used before, without a transaction and with a failing script
+		one := bscript.NewFromBytes([]byte{0x51})
+		_ = eng.Execute(interpreter.WithScripts(one, bscript.NewFromBytes([]byte{0x51})))
+		_ = eng.Execute(interpreter.WithScripts(bscript.NewFromBytes([]byte{0x00, 0x69}), one))
+	}
 	accepts, seen := 0, map[int]bool{}
 	for k, i := range c.Order {
 		p := c.Progs[i]
